@@ -264,6 +264,7 @@ func main() {
 	runSys(c, []int{0, 0, 0, 0, 1, 1, 0, 1})
 	runSys(c, []int{1, 0, 0, 7, 1, 0}) // seeded C20-3: failure whose False patch is rejected once, then retried
 	runSys(c, []int{1, 5, 1, 1}) // seeded C20-1: NodeClass change while the condition is already Unknown
+	attemptCases(c)
 	enumerate(2, tfLen, func(s []int) { runTracker(c, s) })
 	enumerate(6, mixLen, func(s []int) { runTracker(c, s) })
 	enumerate(6, sysLen, func(s []int) { runSys(c, s) })
@@ -290,9 +291,10 @@ func main() {
 		}
 		runSys(c, t)
 	}
-	c.Meta.Rule = fmt.Sprintf("exhaustive: all {T,F} sequences of length %d, all sequences of length %d over 6 tracker ops, all sequences of length %d over the 6 fault-free system ops and of length one less over all 8 (incl. a rejected status patch on either record path); plus %d random longer ones. non-trivial = the ring buffer wrapped (more than 4 consecutive updates) / at least 3 outcomes recorded; distinct by op sequence", tfLen, mixLen, sysLen, nRand)
+	c.Meta.Rule = fmt.Sprintf("exhaustive: all {T,F} sequences of length %d, all sequences of length %d over 6 tracker ops, all sequences of length %d over the 6 fault-free system ops and of length one less over all 8 (incl. a rejected status patch on either record path); plus %d random longer ones; attempt level: a corpus plus random histories of 8-22 ops (new claim / node joins / lifecycle reconcile with one of three API faults / clock / pool, class, restart, re-hydration). non-trivial = the ring buffer wrapped (more than 4 consecutive updates) / at least 3 outcomes recorded; distinct by op sequence", tfLen, mixLen, sysLen, nRand)
 	c.Meta.Exhaustive = true
 	c.Meta.Corr = []string{"nodepoolhealth.State.{Update,SetStatus,Status,DryRun} = C20.Model.{tstep,tstatus,dry_run}",
-		"lifecycle.{Registration,Liveness}.updateNodePoolRegistrationHealth + registrationhealth.Reconcile = C20.Model.step"}
-	c.Finish("From KV Require Import C20.Model C20.Check.", "case", "check_all", 1500)
+		"lifecycle.{Registration,Liveness}.updateNodePoolRegistrationHealth + registrationhealth.Reconcile = C20.Model.step",
+		"lifecycle.Controller.Reconcile (Launch, Registration, Liveness, status write-back) on NodeClaims of the pool, with API faults = C20.Attempts.astep fixed"}
+	c.Finish("From KV Require Import C20.Model C20.Attempts C20.Check.", "case", "check_all", 1500)
 }
